@@ -23,8 +23,22 @@ enum Gap {
     CompactionOnly,
 }
 
-fn restore_and_dump(backup_dir: &std::path::Path, id: ndb_core::BackupInfo, out_dir: &ScratchDir) -> Result<Facts, String> {
+/// Every second restore goes over existing files, the usual reason for restoring: the target path
+/// already holds a copy of the source database as it is now (newer, at least as large as the backup).
+fn restore_and_dump(backup_dir: &std::path::Path, id: ndb_core::BackupInfo, out_dir: &ScratchDir, source_base: &std::path::Path, out: &mut CaseOut) -> Result<Facts, String> {
+    use std::sync::atomic::{AtomicU64, Ordering};
+    static ROT: AtomicU64 = AtomicU64::new(0);
     let target = out_dir.path.join("restored.ndb");
+    if ROT.fetch_add(1, Ordering::Relaxed) % 2 == 1 {
+        let a = std::fs::copy(source_base.with_extension("ndb"), &target).is_ok();
+        let b = std::fs::copy(source_base.with_extension("wal"), target.with_extension("wal")).is_ok();
+        if a && b {
+            out.count("restores_over_existing_database_files", 1);
+        } else {
+            let _ = std::fs::remove_file(&target);
+            let _ = std::fs::remove_file(target.with_extension("wal"));
+        }
+    }
     BackupManager::restore_from_backup(backup_dir, id.id, &target).map_err(|e| format!("restore failed: {e}"))?;
     let r = catch_unwind(AssertUnwindSafe(|| Db::open(&target)));
     match r {
@@ -124,7 +138,7 @@ fn one_case(ctl: &Arc<Ctl>, pre_commits: u64, pre_compact: bool, gap: Gap, out: 
     out.count(&format!("backups.{}", match gap { Gap::Quiescent => "quiescent", Gap::Commits(_) => "commits-in-gap", Gap::CommitsAndCompaction => "commits+compaction-in-gap", Gap::CompactionOnly => "compaction-in-gap" }), 1);
     out.cell(format!("{gap:?}:pre={pre_commits}:compacted={pre_compact}"));
     let rdir = ScratchDir::new("c29r");
-    match restore_and_dump(&bdir, info, &rdir) {
+    match restore_and_dump(&bdir, info, &rdir, &base, out) {
         Err(e) => out.violations.push(Violation {
             signature: format!("C29|restored-backup-unusable:{}|{}", crate::storemon::normalise_msg(&e), gap_class(gap)),
             summary: e,
@@ -215,7 +229,7 @@ fn stress(seed: u64, secs: u64, compact_every: u64, out: &mut CaseOut) {
         let class = if overlapped { "free-running:compaction-overlapped" } else { "free-running:no-compaction-overlapped" };
         out.cell(format!("{class}:commits-overlapped={}", hi > lo));
         let rdir = ScratchDir::new("c29sr");
-        match restore_and_dump(&bdir, info, &rdir) {
+        match restore_and_dump(&bdir, info, &rdir, &base, out) {
             Err(e) => out.violations.push(Violation {
                 signature: format!("C29|restored-backup-unusable:{}|{class}", crate::storemon::normalise_msg(&e)),
                 summary: e,
